@@ -79,7 +79,8 @@ func isStringAt(buf string, at int, s string) bool {
 	if at+len(s) > len(buf) {
 		return false
 	}
-	for i := range s {
+	// byte by byte: `range s` would walk runes and skip the continuation bytes of a non-ASCII needle.
+	for i := 0; i < len(s); i++ {
 		if s[i] != buf[at+i] {
 			return false
 		}
